@@ -31,23 +31,33 @@ def eye_l(n, sub=None):
 
 def cases(thorough):
     cs = []
-    vs3 = [(1, 2, 0), (1, 1, 1), (2, -1, 3), (1, 0, 0)]
+    vs3 = [(1, 1, 0), (1, 1, 1), (1, -1, 2), (1, 0, 0)]
     ds3 = [(1, 2, 4), (3, -1, 2), (5, 0, -2)]
     ls3 = [eye_l(3), eye_l(3, {(1, 0): 1, (2, 1): -1}), eye_l(3, {(1, 0): 2, (2, 0): 1, (2, 1): 1})]
     for v, d, l in itertools.product(vs3, ds3, ls3):
         cs.append(dict(v=v, d=d, l=l, nmodes=0, sigma=(0, 1)))
-    vs5 = [(1, 2, 0, 1, 1), (1, -1, 2, 0, 3)] + ([(2, 1, 1, -1, 1)] if thorough else [])
-    ds5 = [(1, 2, 4, 7, 11), (6, -3, 2, 9, 1)]
+    vs5 = [(1, 1, 1, 1, 0), (1, -1, 0, 1, 1)] + ([(0, 1, 1, -1, 1)] if thorough else [])     # v'v = 4: dyadic reflector
+    ds5 = [(1, 2, 3, 5, 6), (4, -1, 2, 6, 1)]
     ls5 = [eye_l(5), eye_l(5, {(1, 0): 1, (2, 1): -1, (3, 2): 1, (4, 3): 1})]
     for v, d, l in itertools.product(vs5, ds5, ls5):
         cs.append(dict(v=v, d=d, l=l, nmodes=0, sigma=(0, 1)))
-        for nm, sg in ((2, (5, 2)), (2, (17, 2)), (3, (7, 4))) + (((2, (-1, 2)), (3, (21, 2))) if thorough else ()):
+        for nm, sg in ((2, (5, 2)), (2, (11, 2)), (3, (7, 4))) + (((2, (-1, 2)), (3, (9, 2))) if thorough else ()):
             cs.append(dict(v=v, d=d, l=l, nmodes=nm, sigma=sg))
     return cs
 
 
-def model(cs, emit):
-    return tlc.mc("Eigen", dict(Cases=tlc.SetOf(cs)), invariants=["C11"] + (["Emit"] if emit else []))
+DIRS3 = [dict(dA=((1, 0, 0), (0, 0, 0), (0, 0, 0)), dB=((0, 0, 0), (0, 0, 0), (0, 0, 0))),
+         dict(dA=((0, 1, -1), (1, 2, 0), (-1, 0, 1)), dB=((0, 0, 0), (0, 0, 0), (0, 0, 0))),
+         dict(dA=((1, 2, 0), (2, -1, 1), (0, 1, 0)), dB=((1, 0, 1), (0, 2, 0), (1, 0, -1)))]
+DIRS5 = [dict(dA=tuple(tuple((i + 2 * j) % 3 - 1 if i <= j else (j + 2 * i) % 3 - 1 for j in range(5)) for i in range(5)),
+              dB=tuple(tuple(0 for j in range(5)) for i in range(5))),
+         dict(dA=tuple(tuple(1 if i == j else 0 for j in range(5)) for i in range(5)),
+              dB=tuple(tuple((i * j) % 2 if i != j else i % 3 for j in range(5)) for i in range(5)))]
+
+
+def model(cs, emit, der=False):
+    invs = ["C11"] + (["Emit"] if emit else []) + (["DerivOK", "EmitDer"] if der else [])
+    return tlc.mc("Eigen", dict(Cases=tlc.SetOf(cs), Dirs=tlc.SetOf(DIRS3 + DIRS5)), invariants=invs)
 
 
 def qm(M):
